@@ -1,7 +1,9 @@
 (** Executable model of the table lookups of src/offset/local/tz_info/timezone.rs:
     [TimeZoneRef::unix_time_to_unix_leap_time], [find_local_time_type] and
     [find_local_time_type_from_local] (with the repaired saturating additions of commit
-    "fix: local-time lookup overflowed ...").  A wall-clock reading is the pair
+    "fix: local-time lookup overflowed ...", the (earliest, latest) order of
+    fixes/C05-ambiguous-order.diff and the single answer at an equal-offset transition of
+    fixes/C05-equal-offset-transition.diff).  A wall-clock reading is the pair
     (local_time.year(), local_time.and_utc().timestamp()) the Rust computes from the
     NaiveDateTime.  No proofs here. *)
 From Coq Require Import ZArith List Bool String.
@@ -60,17 +62,17 @@ Fixpoint local_loop (types : list ltt) (trs : list transition) (prev : ltt) (loc
       let* after_ltt := index types (tr_idx transition) in
       let transition_end := saturating_add_i64 (tr_time transition) (ut_offset after_ltt) in
       let transition_start := saturating_add_i64 (tr_time transition) (ut_offset prev) in
-      let ambiguous := if ut_offset prev <? ut_offset after_ltt
-                       then MAmbiguous prev after_ltt else MAmbiguous after_ltt prev in
       match transition_start ?= transition_end with
       | Gt =>
+          (* as repaired by fixes/C05-ambiguous-order.diff: (earliest, latest) = (prev, after) *)
           if local_leap_time <? transition_end then Val (inl (MSingle prev))
           else if (local_leap_time >=? transition_end) && (local_leap_time <=? transition_start)
-          then Val (inl ambiguous)
+          then Val (inl (MAmbiguous prev after_ltt))
           else local_loop types rest after_ltt local_leap_time
       | Eq =>
+          (* as repaired by fixes/C05-equal-offset-transition.diff: one reading, not Ambiguous(x, x) *)
           if local_leap_time <? transition_start then Val (inl (MSingle prev))
-          else if local_leap_time =? transition_end then Val (inl ambiguous)
+          else if local_leap_time =? transition_end then Val (inl (MSingle after_ltt))
           else local_loop types rest after_ltt local_leap_time
       | Lt =>
           if local_leap_time <=? transition_start then Val (inl (MSingle prev))
